@@ -205,3 +205,19 @@ Fixpoint supply_mismatches (i : nat) (l : list supply_obs) : list (nat * nat) :=
   | c :: r => let v := supply_check c in
               if Nat.eqb v 0 then supply_mismatches (S i) r else (i, v) :: supply_mismatches (S i) r
   end.
+
+(* the organic pools of the rooted layers before / after PhytoOut on an ordinary growth day (RootDistModel.pools_after): dead leaves and
+   stems of organs 2, 3, dead roots by root share (WUMM from the root mass before / after and the root N concentration).
+   1 = NFOS, 2 = NAOS *)
+Record pool_obs := { plo_dgorgs : list float; plo_gehalt : float; plo_dt : float; plo_wumas : float; plo_wumalt : float; plo_wugeh : float;
+                     plo_shares : list float; plo_nfos : list float; plo_naos : list float; plo_o_nfos : list float; plo_o_naos : list float }.
+Definition pool_check (o : pool_obs) : nat :=
+  let wumm := dead_root_n (plo_wumas o) (plo_wumalt o) (plo_wugeh o) in
+  let '(f, a) := pools_after (plo_dgorgs o) (plo_gehalt o) (plo_dt o) wumm (plo_shares o) (plo_nfos o) (plo_naos o) in
+  ((if floats_same f (plo_o_nfos o) then 0 else 1) + (if floats_same a (plo_o_naos o) then 0 else 2))%nat.
+Fixpoint pool_mismatches (i : nat) (l : list pool_obs) : list (nat * nat) :=
+  match l with
+  | [] => []
+  | c :: r => let v := pool_check c in
+              if Nat.eqb v 0 then pool_mismatches (S i) r else (i, v) :: pool_mismatches (S i) r
+  end.
